@@ -231,6 +231,8 @@ def c03(run):
     run.trace("roundtrip-canon", Q(run, 3, 40), types=[t for t in all_types() if t.split(".")[0] in ("bse", "sample")], seed_off=100)
     run.trace("roundtrip-canon", Q(run, 1, 10), seed_off=200)
     run.trace("roundtrip-canon", Q(run, 1, 10), seed_off=300, poison=2, small=True)
+    run.trace("roundtrip-canon", Q(run, 1, 10), seed_off=350, poison=1, small=True)   # another order of the refused calls (what a pool hands out depends on it)
+    run.trace("roundtrip-canon", Q(run, 1, 10), seed_off=370, poison=1, small=True)
     run.trace("registry-frames", Q(run, 10, 200), types=["sse.SseBinary", "szse.SzseBinary", "sample.RootPacket"], seed_off=400)
     return run.finish(RULE_PRIMMODEL + RULE_PRIM + RULE_TRACE + RULE_POISON)
 
